@@ -4,9 +4,14 @@
    output line: per category five characters 1/0 (message types in QtMsgType numeric order:
                 debug warning critical fatal info), categories separated by ',' — the format of
                 harness/h_category.
-   with a further field <ci>:<ti>[,...] (query sequence: category index, type index) the output is one
-   character per query, in that order (the model's verdict does not depend on the order); in mode oracle
-   the verdict field then comes fourth and holds one character per query.
+   with a further field [<storage>/]<ci>:<ti>[,...] (a history put to ONE filter object: category index, type
+   index; <storage> = where the harness keeps the category names: none = every name at its own address,
+   B S H C = one reused buffer / recycled heap blocks, see harness/h_category.cpp) the history becomes a list
+   of Coq [query] records (address, name text, type; address = category index + 1 without a storage prefix,
+   0 for all queries with one) and the output is one character per query, in that order, computed by
+   [object_answers src_cfg] (mode model) or [spec_answers] (mode spec); in mode oracle the verdict field
+   comes fourth, holds one character per query, and the output is the per-query marks of prop_c15_b
+   followed by a blank and the mark of the history oracle prop_c15_seq_b on the whole answer list.
    modes (argv[1]): model  = category_filter src_cfg (default)
                     spec   = spec_verdict (the specification function)
                     legacy = the model with "^...$" line semantics (classification of LF failures)
@@ -24,6 +29,18 @@ let types = [Debug; Warning; Critical; Fatal; Info]
 let tname = function Debug -> "debug" | Warning -> "warning" | Critical -> "critical" | Fatal -> "fatal" | Info -> "info"
 let show_rules rs = String.concat " " (List.map (fun r ->
   Printf.sprintf "%s/%s/%s" (hex r.pat) (match r.rtype with None -> "*" | Some t -> tname t) (if r.enabled then "1" else "0")) rs)
+(* the query field of a history line -> Coq queries (None = index out of range / unreadable) *)
+let history cats qs =
+  let shared, qs =
+    if String.length qs >= 2 && qs.[1] = '/' then true, String.sub qs 2 (String.length qs - 2) else false, qs in
+  List.map (fun q ->
+    match String.split_on_char ':' q with
+    | [ci; ti] ->
+      (match int_of_string_opt ci, int_of_string_opt ti with
+       | Some ci, Some ti when ci >= 0 && ci < Array.length cats && ti >= 0 && ti < 5 ->
+         Some { q_addr = n_of_int (if shared then 0 else ci + 1); q_cat = cats.(ci); q_type = List.nth types ti }
+       | _ -> None)
+    | _ -> None) (String.split_on_char ',' qs)
 let () =
   let mode = if Array.length Sys.argv > 1 then Sys.argv.(1) else "model" in
   try while true do
@@ -34,28 +51,32 @@ let () =
      | [r; cs; qs; vs] when mode = "oracle" ->
        let rules = unhex r in
        let cats = Array.of_list (List.map unhex (String.split_on_char ',' cs)) in
+       let hist = history cats qs in
        let b = Buffer.create 64 in
        List.iteri (fun k q ->
-         match String.split_on_char ':' q with
-         | [ci; ti] ->
-           let ci = int_of_string ci and ti = int_of_string ti in
-           Buffer.add_char b (if ci < Array.length cats && ti < 5 && k < String.length vs
-                                 && (vs.[k] = '0' || vs.[k] = '1')
-                                 && prop_c15_b rules cats.(ci) (List.nth types ti) (vs.[k] = '1') then '1' else '0')
-         | _ -> Buffer.add_char b '0') (String.split_on_char ',' qs);
+         Buffer.add_char b (match q with
+           | Some q when k < String.length vs && (vs.[k] = '0' || vs.[k] = '1')
+                         && prop_c15_b rules q.q_cat q.q_type (vs.[k] = '1') -> '1'
+           | _ -> '0')) hist;
+       let whole =
+         List.for_all (fun q -> q <> None) hist && String.length vs = List.length hist
+         && String.for_all (fun c -> c = '0' || c = '1') vs
+         && prop_c15_seq_b rules (List.filter_map (fun q -> q) hist) (List.init (String.length vs) (fun k -> vs.[k] = '1')) in
+       Buffer.add_char b ' '; Buffer.add_char b (if whole then '1' else '0');
        print_endline (Buffer.contents b)
      | [r; cs; qs] when mode <> "oracle" && String.contains qs ':' ->
        let rules = unhex r in
        let cats = Array.of_list (List.map unhex (String.split_on_char ',' cs)) in
-       let f = match mode with "spec" -> spec_verdict | "legacy" -> legacy_verdict | _ -> model_verdict in
-       let b = Buffer.create 64 in
-       List.iter (fun q ->
-         match String.split_on_char ':' q with
-         | [ci; ti] ->
-           let ci = int_of_string ci and ti = int_of_string ti in
-           Buffer.add_char b (if ci < Array.length cats && ti < 5 then (if f rules cats.(ci) (List.nth types ti) then '1' else '0') else '?')
-         | _ -> Buffer.add_char b '?') (String.split_on_char ',' qs);
-       print_endline (Buffer.contents b)
+       let hist = history cats qs in
+       if List.for_all (fun q -> q <> None) hist && mode <> "legacy" then begin
+         let f = if mode = "spec" then spec_answers else model_answers in
+         print_endline (String.concat "" (List.map (fun v -> if v then "1" else "0") (f rules (List.filter_map (fun q -> q) hist))))
+       end else begin
+         let f = match mode with "spec" -> spec_verdict | "legacy" -> legacy_verdict | _ -> model_verdict in
+         print_endline (String.concat "" (List.map (function
+           | Some q -> if f rules q.q_cat q.q_type then "1" else "0"
+           | None -> "?") hist))
+       end
      | [r; cs; vs] when mode = "oracle" ->
        let rules = unhex r in
        let cats = String.split_on_char ',' cs and vl = String.split_on_char ',' vs in
